@@ -24,7 +24,7 @@ ASSUMPTIONS = ["CPython 3.12.1's ast.parse is the reference; only the accept/rai
 
 
 def units(tier: str) -> list[tuple]:
-    return _diff.units(tier, USE, VOCABS, SHIFT, asdl_k=2, sub_cap=12_000) + [("fstr", 0), ("fstr", 1)]
+    return _diff.units(tier, USE, VOCABS, SHIFT, asdl_k=2, sub_cap=12_000) + [("fstr", 0), ("fstr", 1), ("numword",)]
 
 
 def cases(unit: tuple):
@@ -35,6 +35,21 @@ def cases(unit: tuple):
 
         for s in (c10.light_cases() if unit[1] == 0 else c10.blank_insertions()):
             yield {"src": s, "mode": "exec", "fstr": True}
+        return
+    if unit[0] == "numword":
+        # a word written right against a numeric literal: CPython's tokenizer refuses it unless the word is one of the
+        # keywords that may follow an operand; here NUMBER and NAME are separate tokens whatever lies between them
+        import keyword
+
+        words = sorted(keyword.kwlist) + ["abc", "_", "\u00e9", "match", "case", "type", "j", "e5", "x1", "b1", "L"]
+        numbers = ["0", "1", "1.", "1e5", "0x1f", "1j", "0b1", "0o7", "1_0", ".5", "1.5J"]
+        frames = ["x = {N}{W} y\n", "x = {N}{W}\n", "match q:\n    case {N}{W} z:\n        pass\n", "match q:\n    case ({N}{W} z) | 2:\n        pass\n",
+                  "with {N}{W} z:\n    pass\n", "x = [{N}{W} x in y]\n", "x = {N}{W} 2\n", "x = a if {N}{W} 2\n", "x = -{N}{W} z\n",
+                  "try:\n    pass\nexcept {N}{W} e:\n    pass\n", "x = {N}{W}.real\n", "f({N}{W} z)\n"]
+        for n in numbers:
+            for w in words:
+                for fr in frames:
+                    yield fr.replace("{N}", n).replace("{W}", w), "exec"
         return
     yield from _diff.cases(unit)
 
